@@ -389,6 +389,16 @@ func init() {
 		m.locked = true
 		return in.ts.tt
 	})
+	reg("(*sync.RWMutex).TryLock", externals["(*sync.Mutex).TryLock"])
+	reg("(*sync.RWMutex).TryRLock", func(in *Interp, fr *Frame, fn *ssa.Function, a []Value) Value {
+		in.sched.yield(fr, "TryRLock")
+		m := in.mutex(a[0].(*Value))
+		if m.locked {
+			return in.ts.ff
+		}
+		m.readers++
+		return in.ts.tt
+	})
 	reg("(*sync.RWMutex).Lock", externals["(*sync.Mutex).Lock"])
 	reg("(*sync.RWMutex).Unlock", externals["(*sync.Mutex).Unlock"])
 	reg("(*sync.RWMutex).RLock", func(in *Interp, fr *Frame, fn *ssa.Function, a []Value) Value {
@@ -736,7 +746,9 @@ func (in *Interp) mutexUnlock(fr *Frame, p *Value, read bool) {
 	if p == nil {
 		in.rtPanic(fr, "invalid memory address or nil pointer dereference (nil mutex)")
 	}
-	_ = in.sched
+	if yieldBeforeRelease {
+		in.sched.yield(fr, "Unlock")
+	}
 	// no scheduling point before a release: a switch here commutes with a switch before the
 	// previous visible operation of this goroutine (reduction; acquire-like operations keep theirs)
 	m := in.mutex(p)
